@@ -24,6 +24,8 @@ def legs(ctx):
     return [
         dict(name="native-ledger", flavor="release", cases=500000, workers=12),
         dict(name="asan-heap", flavor="asan", cases=150000, workers=4, extra=["--heap", "1"]),
+        dict(name="libfuzzer-c03_ledger", flavor="fuzz", target="c03_ledger", runs=2500000, workers=1),
+        dict(name="miri", flavor="miri", cases=40, workers=1, extra=['--heap', '1']),
     ]
 
 
